@@ -40,10 +40,17 @@ def verify_function(run, relfile, qual, make_contract, timeout_ms=10000, engine_
     failed = []
     nfail = 0
     seen = {}
+    t_start = time.time()
     for o in obs:
         if nfail >= 3:
             # after three failures in one function the remaining ones are solved with a short budget
             eng.timeout_ms = 2000
+        if nfail >= 6 or (nfail >= 1 and time.time() - t_start > 240):
+            # the function already fails: the remaining obligations are not attempted (reported as not discharged, never as proved)
+            o.status, o.backend, o.time_s = "skipped", "not attempted: %d obligations of this function already failed" % nfail, 0.0
+            run.add_obligation(o.name, fq, "skipped", o.backend, 0.0, o.clause)
+            failed.append(o)
+            continue
         key = (tuple(sorted(c.get_id() for c in o.pc)), o.goal.get_id())
         if key in seen:
             p0 = seen[key]
